@@ -214,7 +214,6 @@ def reset_worlds():
 
 
 def lazy_grid(sx, name, H, W, sigma):
-    reset_worlds()
     world = World(sx, name, H, W, sigma)
     rows = LazyRows(world)
     grid = Grid.__new__(Grid)
@@ -262,14 +261,14 @@ def pre_held(key='held'):
     return held_item(sx, sigma, name)
 
 
-def lazy_state(sx, H, W, sigma, *, held_sigma=None, name='g', orientations=ORS):
+def lazy_state(sx, H, W, sigma, *, held_sigma=None, name='g', orientations=ORS, agent='a', held='held'):
     """A lazily symbolic State on a concrete shape: agent anywhere in the grid, any heading, any held item."""
     grid, world = lazy_grid(sx, name, H, W, sigma)
-    y = sx.int('ay', 0, H - 1)
-    x = sx.int('ax', 0, W - 1)
-    o = sx.choice('ao', orientations)
-    _LAZY['held'] = (sx, held_sigma if held_sigma is not None else sigma, 'held')
-    return State(grid, LazyAgent(Position(y, x), o, 'held')), world
+    y = sx.int(agent + 'y', 0, H - 1)
+    x = sx.int(agent + 'x', 0, W - 1)
+    o = sx.choice(agent + 'o', orientations)
+    _LAZY[held] = (sx, held_sigma if held_sigma is not None else sigma, held)
+    return State(grid, LazyAgent(Position(y, x), o, held)), world
 
 
 def concrete_grid(rows):
@@ -375,7 +374,9 @@ class ForbiddenRng:
 def _clear_repo_caches():
     from gym_gridverse.envs import reward_functions as _RF
     from gym_gridverse.utils import raytracing as _RT
-    for f in (_RF.dijkstra, _RT.cached_compute_rays, _RT.cached_compute_rays_fancy):
+    # (the ray caches are keyed by the concrete view area and anchor only -- harnesses never pass proxies there --
+    #  and recomputing ray fans on every path would dominate the run time)
+    for f in (_RF.dijkstra,):
         try:
             f.cache_clear()
         except AttributeError:
@@ -386,3 +387,4 @@ from . import symx as _symx  # noqa: E402
 
 if _clear_repo_caches not in _symx.PATH_HOOKS:
     _symx.PATH_HOOKS.append(_clear_repo_caches)
+    _symx.PATH_HOOKS.append(reset_worlds)
